@@ -187,7 +187,8 @@ func (msg MsgInitiateTokenDeposit) Validate(ac address.Codec) error {
 	}
 
 	// allow zero amount for creating account
-	if !msg.Amount.IsValid() {
+	// the amount must fit in 64 bits, otherwise its refund withdrawal could never be finalized
+	if !msg.Amount.IsValid() || !msg.Amount.Amount.IsUint64() {
 		return ErrInvalidAmount
 	}
 
